@@ -191,6 +191,16 @@ CHECKS = {
         design_ref="DESIGN.md section 4, C16", note=E1_NOTE + " Liveness is observed through weakref + gc.collect(); results reference nothing, stores keep no reference to written values.",
         technique="stateless model checking of the implementation with a weak-reference liveness oracle at every call boundary",
     ),
+
+    "C10": dict(
+        engine="E1", category="model_checking",
+        text=("Stateless model checking of uberjob.run under the controlled scheduler: (a) in-flight counters inside call functions, store operations and modified-time queries - over every schedule within the bound the number in flight never exceeds max_workers (stale_check_max_workers for the queries); "
+              "(b) w independent ready calls block on a harness rendezvous until w are in flight: with max_workers = w (and w+1) every schedule must complete - a serialising engine deadlocks and is reported - and with w-1 every schedule must deadlock (harness sanity); "
+              "(c) every non-empty set of failing calls (Exception / BaseException / SystemExit) on 5 graphs x max_errors in {None,0,1,2} x 1-2 workers: failed calls <= k + workers, with one worker exactly min(k+1, failing calls without failed dependency), None => every call without failed dependency ran; "
+              "(d) sequential bounded-exhaustive retry: operation kind {call, store read, store write, modified-time query} x fails on the first j in 0..4 attempts x retry n in 1..4 and two custom decorators: attempts == min(n, j+1), eventual success feeds dependants, the reported cause is the last attempt's exception object, custom decorators are applied to every operation kind."),
+        design_ref="DESIGN.md section 4, C10", note=E1_NOTE,
+        technique="stateless model checking of the implementation (in-flight counters, rendezvous liveness, fault patterns) + bounded-exhaustive retry enumeration",
+    ),
 }
 
 NOT_APPLICABLE = {
